@@ -177,7 +177,12 @@ m("C03", "other",
   "fault before the closing handshake and one in it). C03_end_to_end_naks_lost: a File Data PDU lost and then "
   "any number of NAKs lost below the NAK limit — every expiry re-issues exactly the same NAK (C03_nak_expiries, "
   "induction over the expiry times); C03_end_to_end_retransmission_lost: the retransmission is lost again and "
-  "the sender answers the re-issued NAK from its retransmission step. Building blocks are stated from states "
+  "the sender answers the re-issued NAK from its retransmission step. C03_end_to_end_single_loss_immediate: "
+  "IMMEDIATE NAK mode — the tile after the lost one makes the receiver queue the NAK at once "
+  "(C03_gap_tile_immediate), the sender serves it in the middle of its stream "
+  "(C03_sender_serves_request_sending) and resumes (C03_sender_resumes_stream, rounds_resume): all its PDUs "
+  "together are exactly those of the undisturbed run; the receiver fills the hole while still receiving "
+  "(C03_hole_filled_receiving) and the transfer closes normally. Building blocks are stated from states "
   "(C03_prefix_single_loss, C03_recovery_from_waiting, C03_closing*), so they compose. The "
   "liveness claim for arbitrary <= K fault schedules (recovery within the limits) is NOT a theorem: it is "
   "explored on implementation and model — exhaustively for every schedule of one or two dropped PDUs per "
@@ -188,7 +193,8 @@ m("C03", "other",
   ["liveness under an adversarial link with K > 1 faults / duplication / reordering is explored, not proved "
    "(DESIGN.md §6 C03 stage 4); the proved recovery runs are for one lost File Data PDU (deferred NAK mode), a lost EOF, ACK (EOF), "
    "Finished, ACK (Finished), NAK (any number below the limit) or retransmitted PDU, one PDU per call; lost "
-   "Metadata, duplication/reordering beyond idempotent writes and the immediate NAK mode are exploration-level"])
+   "Metadata, duplication/reordering beyond idempotent writes, several lost File Data PDUs and immediate-mode "
+   "losses other than one File Data PDU are exploration-level"])
 m("C04", "proof",
   "silent-peer scenarios for the three retry procedures with limits 1..4 and intervals 500..2000 ms: calls "
   "one ms before each expiry (nothing may happen), exactly at it; the awaited ACK after j < N expiries; exact "
